@@ -478,8 +478,11 @@ func chainRunOnce(s *Summary, c *chainCase, sp chainSplit, outerPrefix string, c
 					if c.Kind == "notallowed" {
 						nm, np = "GET", "/missing"
 					}
-					r.ServeHTTP(httptest.NewRecorder(), &http.Request{Method: nm, URL: &url.URL{Path: np}, Header: http.Header{}, Proto: "HTTP/1.1"})
-					cur = saved
+					func() {
+						// (the global middleware runs for the nested request too; what it does there - a panic included - stays there)
+						defer func() { _ = recover(); cur = saved }()
+						r.ServeHTTP(httptest.NewRecorder(), &http.Request{Method: nm, URL: &url.URL{Path: np}, Header: http.Header{}, Proto: "HTTP/1.1"})
+					}()
 				}
 			})
 			if n%3 != 0 { // one Use call per handler: the shared slice of global middleware gets spare capacity
